@@ -38,6 +38,11 @@ var parents = []string{
 	"http://a.example:8080/d/p",
 	"http://u:p@a.example/d/p",
 	"http://a.example/d/e/f/g?b=2&a=1",
+	// escaped delimiters in the path: a "?", a "#" and a "%" that are data, and one next to an escaped slash
+	"http://a.example/a%3Fb/c/d",
+	"http://a.example/issue%2342/i.html?q=1",
+	"http://a.example/100%2541/c",
+	"http://a.example/a%2Fb/c%3Fd/e",
 }
 
 func alphabets(tier string) alphabet {
